@@ -2,6 +2,8 @@ package harness
 
 import (
 	"fmt"
+	"os"
+	"runtime"
 	"strconv"
 	"strings"
 
@@ -383,10 +385,16 @@ func Reference(spec *Spec, reverse bool) (Exp, error) {
 		return exp, nil
 	}
 	exp.Pool = observePool(spec, ecos, fv)
+	gcEach := os.Getenv("GOGC") == "1" // set for trees whose behaviour can depend on the collector
 	for t := len(spec.Tasks) - 1; t >= 0; t-- {
 		prog := spec.Tasks[t]
 		for i := len(prog) - 1; i >= 0; i-- {
 			exp.Ops[t][i] = evalOp(&prog[i], ecos, fv)
+			if gcEach {
+				// what the previous operation dropped is collected before the next
+				// one allocates (address reuse, cleared weak pointers)
+				runtime.GC()
+			}
 		}
 	}
 	for i := len(spec.Prewarm) - 1; i >= 0; i-- {
